@@ -187,7 +187,7 @@ def query(cons, vars_):
 
 def model_env(m, extra_vars=()):
     env = {}
-    for n in fam.VARS + list(extra_vars):
+    for n in fam.VARS + fam.MEMBERS + list(extra_vars):
         v = m.eval(z3.Int("in_" + n), model_completion=True)
         env[n] = v.as_long()
     A = z3.Array("in_a", z3.IntSort(), z3.IntSort())
@@ -203,9 +203,12 @@ def model_env(m, extra_vars=()):
 
 
 def src_for(pairs):
-    lines = ["subroutine s(i, j, n, m, a, c, " + ", ".join(f"p{k}, q{k}" for k in range(len(pairs))) + ")",
+    lines = ["subroutine s(i, j, n, m, a, c, pa, pa_x, " + ", ".join(f"p{k}, q{k}" for k in range(len(pairs))) + ")",
              "  type :: ct", "    integer :: w(8)", "  end type ct",
-             "  integer :: i, j, n, m", "  integer, dimension(:) :: a", "  type(ct) :: c(8,8)"]
+             "  type :: t1", "    integer :: x_y", "    integer :: z", "  end type t1",
+             "  type :: t2", "    integer :: y", "  end type t2",
+             "  integer :: i, j, n, m", "  integer, dimension(:) :: a", "  type(ct) :: c(8,8)",
+             "  type(t1) :: pa", "  type(t2) :: pa_x"]
     for k in range(len(pairs)):
         lines.append(f"  integer :: p{k}, q{k}")
     for k, p in enumerate(pairs):
@@ -243,7 +246,7 @@ def work(batch):
     sm = SymbolicMaths.get()
     writer = FortranWriter()
     signal.signal(signal.SIGALRM, _alarm)
-    vars_ = [z3.Int("in_" + n) for n in fam.VARS]
+    vars_ = [z3.Int("in_" + n) for n in fam.VARS + fam.MEMBERS]
     for k, p in enumerate(pairs):
         r1, r2 = asg[2 * k].rhs, asg[2 * k + 1].rhs
         ev = Ev()
